@@ -17,11 +17,11 @@ def related(files, own):
             ids.add(p["id"])
     return sorted(ids)
 if sys.argv[1] == "collect":
-    ID = sys.argv[2]; wt = "/tmp/seedC-%s" % ID
+    ID = sys.argv[2]; wt = os.environ.get("NEUTRAL_WT", "/tmp/seedC-%s") % ID
     for i in sorted(os.listdir(os.path.join(wt, "neutral_out"))):
         src = os.path.join(wt, "neutral_out", i)
         if not os.path.isfile(os.path.join(src, "patch.diff")): continue
-        dst = os.path.join(ROOT, "neutral", "%s-%s" % (ID, i)); os.makedirs(dst, exist_ok=True)
+        dst = os.path.join(ROOT, "neutral", "%s-%s" % (ID, os.environ.get("NEUTRAL_DEST", i))); os.makedirs(dst, exist_ok=True)
         for f in ("patch.diff", "meta.json"): shutil.copy(os.path.join(src, f), dst)
         sh = lambda c: subprocess.run(c, shell=True, cwd=wt, capture_output=True, text=True)
         sh("git checkout -- ."); a = sh("git apply neutral_out/%s/patch.diff" % i)
